@@ -3,10 +3,12 @@ package props
 import (
 	"encoding/json"
 	"fmt"
+	"math"
 	"math/big"
 	"reflect"
 	"regexp"
 	"sort"
+	"strconv"
 	"strings"
 	"unicode/utf8"
 
@@ -22,7 +24,7 @@ func init() {
 		id: "C19", level: "exploration",
 		technique: "law monitors: each stated equation is a predicate over one or two engine executions (values extracted through json_encode), plus a reference implementation of Twig's slice index rules (exhaustive grid) and math/big.Rat arithmetic for abs / round / number_format",
 		rule: "case = (law, input). Laws: idempotence of upper/lower/trim/capitalize; reverse involution + length preservation; sort = ordered permutation; length = for-loop count = slice(0,n) coverage, first/last = first/last element a loop observes (strings by code point); join|split round trip for separator-free strings; default replaces exactly undefined/null/''/[]/{}; merge concatenates lists, later maps win; keys lists every key once; " +
-			"slice(start[,length]) for sizes 0-7 x start,length in [-9,9] + omitted on ASCII / multi-byte strings, untyped and typed lists; abs, round(precision 0-4, common/ceil/floor), number_format on integers and k/2^n. Non-trivial: input is non-empty and (multi-byte, or has >= 3 elements, or is negative / fractional). Distinct = distinct (law, input).",
+			"slice(start[,length]) for sizes 0-7 x start,length in [-9,9] + omitted on ASCII / multi-byte strings, untyped and typed lists; abs, round(precision -3..4, common/ceil/floor), number_format on integers, k/2^n, decimals with three places (off the binary grid) and halves next to 2^51; sort also on typed int lists of neighbours beyond 2^53 and typed float lists with a NaN (read back in decimal through join). Non-trivial: input is non-empty and (multi-byte, or has >= 3 elements, or is negative / fractional). Distinct = distinct (law, input).",
 		assumptions: []string{
 			"sort of an int list may be numeric or textual ('ordered' is not further specified); 0 and false under default are accepted either way; ties in number_format accept either neighbour; ties in round with the 'common' method go away from zero (Twig's definition of that method), ceil/floor are exact",
 			"join|split is checked for single-character separators; multi-character separators are a recorded known finding (the engine's own test suite fixes split-on-any-character semantics)",
@@ -368,8 +370,88 @@ func (p *c19) reverse(rec *core.Recorder, r *core.Rand) {
 	}
 }
 
+// sortExact: numbers that the JSON route of sortLaw cannot tell apart — integers beyond 2^53 (neighbours share a float64)
+// and, in typed float lists, a NaN between the numbers. Read back through join in decimal; the comparable elements must
+// come out in non-decreasing order and the result must be a permutation of the input.
+func (p *c19) sortExact(rec *core.Recorder, r *core.Rand) {
+	n := r.Range(2, 6)
+	var carrier interface{}
+	var wantParts []string
+	var kind string
+	switch r.Intn(3) {
+	case 0, 1:
+		base := []int{1 << 53, 1 << 60, -(1 << 53), 1<<62 + 12345, -(1 << 61)}[r.Intn(5)]
+		l := make([]int, n)
+		for i := range l {
+			l[i] = base + r.Range(-3, 3)
+		}
+		// (typed lists only: a []interface{} list is sorted by string representation, which the repository's own test pins)
+		kind, carrier = "[]int-beyond-2^53", l
+		sorted := append([]int(nil), l...)
+		sort.Ints(sorted)
+		for _, v := range sorted {
+			wantParts = append(wantParts, fmt.Sprint(v))
+		}
+	default:
+		l := make([]float64, n+1)
+		for i := range l {
+			l[i] = float64(r.Range(-40, 40)) / 4
+		}
+		l[r.Intn(len(l))] = math.NaN()
+		kind, carrier = "[]float64-with-NaN", l
+	}
+	key := kind + fmt.Sprint(carrier)
+	rec.Eval("sort-exact", key, true)
+	rec.Count("sort-exact:"+kind, 1)
+	out, err, res := c19R("{{ v|sort|join(',') }}", map[string]interface{}{"v": carrier})
+	cs := map[string]any{"input": fmt.Sprintf("%#v", carrier), "output": out}
+	if res.Panicked {
+		rec.Violate("panic", "panic@"+res.Site, "engine panicked: "+res.PanicVal, cs, res.Stack)
+		return
+	}
+	if err != nil {
+		p.violate(rec, "sort", key, fmt.Sprintf("sort failed on %s %v: %v", kind, carrier, err), cs)
+		return
+	}
+	if wantParts != nil {
+		if out != strings.Join(wantParts, ",") {
+			p.violate(rec, "sort", key, fmt.Sprintf("sort of %s %v gives %s, an ordered permutation is %s", kind, carrier, out, strings.Join(wantParts, ",")), cs)
+		}
+		return
+	}
+	in := carrier.([]float64)
+	parts := strings.Split(out, ",")
+	var gotNum, wantNum []float64
+	nan := 0
+	for _, q := range parts {
+		f, e := strconv.ParseFloat(q, 64)
+		if e != nil {
+			p.violate(rec, "sort", key, fmt.Sprintf("sort of %s %v gives %s: %q is not a number", kind, in, out, q), cs)
+			return
+		}
+		if f != f {
+			nan++
+		} else {
+			gotNum = append(gotNum, f)
+		}
+	}
+	for _, f := range in {
+		if f == f {
+			wantNum = append(wantNum, f)
+		}
+	}
+	sort.Float64s(wantNum)
+	if nan != len(in)-len(wantNum) || fmt.Sprint(gotNum) != fmt.Sprint(wantNum) {
+		p.violate(rec, "sort", key, fmt.Sprintf("sort of %s %v gives %s: its numbers are not the input's numbers in order (%v)", kind, in, out, wantNum), cs)
+	}
+}
+
 func (p *c19) sortLaw(rec *core.Recorder, r *core.Rand) {
 	rec.Count("law:sort", 1)
+	if r.P(1, 5) {
+		p.sortExact(rec, r)
+		return
+	}
 	want, carrier, kind := p.list(r)
 	rec.Eval("sort", kind+canonList(want), len(want) >= 3)
 	out, err, res := c19R("{{ v|sort|json_encode }}", map[string]interface{}{"v": carrier})
@@ -903,9 +985,40 @@ func (p *c19) numbers(rec *core.Recorder, r *core.Rand) {
 		}
 		return
 	}
+	offGrid := false
+	if r.P(1, 6) {
+		// numbers off the k/2^n grid: decimals with three places (1.115, 1.005, 0.29 — the float64 next to them lies a little
+		// above or below, and times a power of ten lands on either side of the tie or the whole number) and halves next to
+		// 2^51 (x.5 times ten is no float64). Exact decimal arithmetic is arithmetic on the number as written, which is also
+		// the shortest decimal that identifies the float64.
+		var g float64
+		if r.Bool() {
+			k := int64(r.Range(-99999, 99999))
+			g = float64(k) / 1000
+			v = new(big.Rat).SetFrac64(k, 1000)
+		} else {
+			g = (float64(int64(1)<<51+int64(r.Intn(1<<20))) + 0.5) * float64([]int{1, -1}[r.Intn(2)])
+			v = new(big.Rat).SetFloat64(g)
+		}
+		ctxVal, den = g, 2
+		offGrid = true
+		rec.Count("floats-off-the-binary-grid", 1)
+	}
 	prec := r.Range(0, 4)
+	if r.P(1, 6) {
+		// to tens, hundreds, thousands (number_format is asked for no decimals then and not compared)
+		prec = -r.Range(1, 3)
+		rec.Count("round-negative-precision", 1)
+	}
 	method := []string{"common", "ceil", "floor"}[r.Intn(3)]
-	scale := new(big.Rat).SetInt(new(big.Int).Exp(big.NewInt(10), big.NewInt(int64(prec)), nil))
+	absPrec := prec
+	if absPrec < 0 {
+		absPrec = -absPrec
+	}
+	scale := new(big.Rat).SetInt(new(big.Int).Exp(big.NewInt(10), big.NewInt(int64(absPrec)), nil))
+	if prec < 0 {
+		scale.Inv(scale)
+	}
 	scaled := new(big.Rat).Mul(v, scale)
 	floorOf := func(x *big.Rat) *big.Int {
 		q := new(big.Int).Div(x.Num(), x.Denom()) // Euclidean division: floor for positive denominators
@@ -949,7 +1062,11 @@ func (p *c19) numbers(rec *core.Recorder, r *core.Rand) {
 	}
 	input := fmt.Sprintf("%s prec=%d %s", v.RatString(), prec, method)
 	rec.Eval("numbers", input, num < 0 || den > 1)
-	src := fmt.Sprintf("{{ v|abs }}|{{ v|round(%d, '%s') }}|{{ v|number_format(%d, '.', ',') }}|{{ v|round }}", prec, method, prec)
+	nfPrec := prec
+	if nfPrec < 0 {
+		nfPrec = 0
+	}
+	src := fmt.Sprintf("{{ v|abs }}|{{ v|round(%d, '%s') }}|{{ v|number_format(%d, '.', ',') }}|{{ v|round }}", prec, method, nfPrec)
 	out, err, res := c19R(src, map[string]interface{}{"v": ctxVal})
 	cs := map[string]any{"value": v.RatString(), "go_value": fmt.Sprintf("%#v", ctxVal), "template": src}
 	if res.Panicked {
@@ -971,6 +1088,13 @@ func (p *c19) numbers(rec *core.Recorder, r *core.Rand) {
 		return false
 	}
 	absV, ok := parse(parts[0])
+	if ok && offGrid {
+		// a float64 prints as the shortest decimal that reads back as the same float64: compare what it reads back as
+		a, _ := absV.Float64()
+		w, _ := new(big.Rat).Abs(v).Float64()
+		ok = a == w
+		absV = new(big.Rat).Abs(v)
+	}
 	if !ok || absV.Cmp(new(big.Rat).Abs(v)) != 0 {
 		p.violate(rec, "numbers", input, fmt.Sprintf("abs(%s) gave %s", v.RatString(), parts[0]), cs)
 		return
@@ -978,6 +1102,9 @@ func (p *c19) numbers(rec *core.Recorder, r *core.Rand) {
 	rv, ok := parse(parts[1])
 	if !ok || !in(rv, wantRound) {
 		p.violate(rec, "numbers", input, fmt.Sprintf("round(%s, %d, %s) gave %s, exact arithmetic gives %v", v.RatString(), prec, method, parts[1], wantRound), cs)
+		return
+	}
+	if prec < 0 {
 		return
 	}
 	nf, ok := parse(parts[2])
